@@ -1208,7 +1208,9 @@ static int vs_run_one(vs_scenario_fn scenario, char **lines, int nlines, const c
         }
         vs_choice_path = cpath;
         vs_parse_policy(tok, nt);
-        alarm(wall_secs);
+        /* the wall-clock limit only guards against a livelock in real time (deadlocks are found by the scheduler itself);
+         * on a loaded machine a baton-passing execution can take many times its usual second */
+        alarm(getenv("VS_WALL_SECS") ? (unsigned)atoi(getenv("VS_WALL_SECS")) : wall_secs);
         vs_run_child(scenario, lines, nlines);
         _exit(0);
     }
@@ -1281,7 +1283,7 @@ static void vs_dfs(vs_scenario_fn scenario, char **lines, int nlines, long budge
             off += (size_t)snprintf(policy + off, sizeof(policy) - off, i ? ",%d" : "%d", it.pre[i]);
         }
         remove(cpath);
-        int died = vs_run_one(scenario, lines, nlines, policy, cpath, 30);
+        int died = vs_run_one(scenario, lines, nlines, policy, cpath, 150);
         runs++;
         int *chosen = NULL, *cur = NULL, drift = 0;
         uint64_t *mask = NULL;
@@ -1395,7 +1397,7 @@ int vs_main(int argc, char **argv, vs_scenario_fn scenario) {
             sscanf(policy, "dfs %ld %d", &budget, &bound);
             vs_dfs(scenario, all + i + 1, (int)(j - i - 1), budget, bound, cpath);
         } else {
-            vs_run_one(scenario, all + i + 1, (int)(j - i - 1), policy, NULL, 30);
+            vs_run_one(scenario, all + i + 1, (int)(j - i - 1), policy, NULL, 150);
         }
         i = j;
     }
